@@ -24,17 +24,17 @@ Lemma feed_tag_line m f line names :
   exists m', feed (ROk m) line = ROk m' /\ m_st m' = StTaggable /\ m_cont m' = CFeat /\ m_feat m' = Some f /\
              m_line m' = S (m_line m) /\ m_kw m' = m_kw m /\
              m_tags m' = m_tags m ++ map (fun n => (n, S (m_line m))) names /\ m_table m' = m_table m /\
-             m_in_examples m' = m_in_examples m.
+             m_in_examples m' = m_in_examples m /\ m_lines m' = m_lines m.
 Proof.
   intros C F ST [ND NB NC AT NS TG].
   set (m1 := upd_line m (S (m_line m))).
   assert (RES : forall m0, m_cont m0 = CFeat -> m_feat m0 = Some f -> m_line m0 = S (m_line m) -> m_kw m0 = m_kw m ->
-                           m_tags m0 = m_tags m -> m_table m0 = m_table m -> m_in_examples m0 = m_in_examples m ->
+                           m_tags m0 = m_tags m -> m_table m0 = m_table m -> m_in_examples m0 = m_in_examples m -> m_lines m0 = m_lines m ->
      let mx := upd_st (upd_tags m0 (m_tags m0 ++ map (fun n => (n, m_line m0)) names)) StTaggable in
      m_st mx = StTaggable /\ m_cont mx = CFeat /\ m_feat mx = Some f /\ m_line mx = S (m_line m) /\ m_kw mx = m_kw m /\
      m_tags mx = m_tags m ++ map (fun n => (n, S (m_line m))) names /\ m_table mx = m_table m /\
-     m_in_examples mx = m_in_examples m).
-  { intros m0 C0 F0 L0 K0 T0 B0 I0 mx. unfold mx. cbn. rewrite L0, T0. repeat split; assumption. }
+     m_in_examples mx = m_in_examples m /\ m_lines mx = m_lines m).
+  { intros m0 C0 F0 L0 K0 T0 B0 I0 N0 mx. unfold mx. cbn. rewrite L0, T0. repeat split; assumption. }
   rewrite (feed_nonblank m line NB). fold m1. rewrite (action_dispatch m1 line NB NC). cbn [m1 upd_line m_st].
   destruct ST as [ST|[ST|[ST|ST]]]; rewrite ST.
   - unfold a_feature. rewrite (sub_taggable_tags m1 (strip line) _ AT (TG _)). cbn [rbind].
@@ -62,19 +62,20 @@ Lemma tag_lines_are_read tls : forall m f,
   exists m', fold_left feed (map fst tls) (ROk m) = ROk m' /\ m_cont m' = CFeat /\ m_feat m' = Some f /\
              in_feature_body m' /\ m_line m' = m_line m + length tls /\ m_kw m' = m_kw m /\
              m_tags m' = m_tags m ++ tags_of tls (m_line m) /\ m_table m' = m_table m /\
-             m_in_examples m' = m_in_examples m.
+             m_in_examples m' = m_in_examples m /\ m_lines m' = m_lines m.
 Proof.
   induction tls as [|[line names] r IH]; intros m f C F ST OK.
   - exists m. cbn. rewrite app_nil_r, Nat.add_0_r. repeat split; auto.
   - inversion OK as [|? ? H1 OK']. subst. cbn [fst snd] in H1.
-    destruct (feed_tag_line m f line names C F ST H1) as (m1 & FD1 & ST1 & C1 & F1 & L1 & K1 & T1 & B1 & I1).
+    destruct (feed_tag_line m f line names C F ST H1) as (m1 & FD1 & ST1 & C1 & F1 & L1 & K1 & T1 & B1 & I1 & N1).
     assert (OK1 : Forall (fun x => tag_line (m_kw m1) (fst x) (snd x)) r) by (now rewrite K1).
     assert (ST1' : in_feature_body m1) by (right; right; right; exact ST1).
-    destruct (IH m1 f C1 F1 ST1' OK1) as (m' & FD' & C' & F' & ST' & L' & K' & T' & B' & I').
+    destruct (IH m1 f C1 F1 ST1' OK1) as (m' & FD' & C' & F' & ST' & L' & K' & T' & B' & I' & N').
     exists m'. cbn [map fst fold_left]. rewrite FD1. split; [exact FD'|]. repeat split; try assumption.
     + rewrite L', L1. cbn [length]. lia.
     + congruence.
     + rewrite T', T1, L1. cbn [tags_of]. now rewrite <- app_assoc.
+    + congruence.
     + congruence.
     + congruence.
 Qed.
@@ -85,7 +86,7 @@ Lemma feed_scenario_line_anywhere m f line alias name :
   exists m', feed (ROk m) line = ROk m' /\ m_st m' = StScenario /\
              at_feature_scenario m' (with_items f (FScen (new_scenario m alias name) :: f_items f)) (new_scenario m alias name) (f_items f) /\
              m_line m' = S (m_line m) /\ m_kw m' = m_kw m /\ m_tags m' = [] /\ m_lang m' = m_lang m /\ m_table m' = m_table m /\
-             m_in_examples m' = m_in_examples m.
+             m_in_examples m' = m_in_examples m /\ m_lines m' = m_lines m.
 Proof.
   intros C F ST SL. destruct ST as [ST|[ST|[ST|ST]]].
   - apply feed_scenario_line; auto.
